@@ -21,7 +21,7 @@ SATS = [0, 1, 2**53, 2**53 + 1, 2**63 - 1, 2**63, 2**64 - 2, 2**64 - 1, 0x010203
 def cases(ctx):
     r = ctx.rnd
     t = ctx.tier == "thorough"
-    for i in range(700 if t else 50):
+    for i in range(3000 if t else 50):
         tx = gen.gen_tx(r, r.choice([1, 1, 2, 3, 5]), r.choice([0, 1, 2, 4]), coinbase=(r.random() < 0.15), script_kw={"minimal": r.random() < 0.4, "depth": r.choice([1, 3, 5]), "n_tokens": r.choice([0, 1, 3, 8, 20]), "push_lens": [0, 0, 1, 2, 20, 75, 76, 255, 256, 300]})
         ext = []
         for _ in tx["ins"]:
